@@ -6,7 +6,7 @@ cd /repo
 if ! git diff --quiet; then echo "REPO DIRTY"; exit 3; fi
 if ! git apply "$PATCH" 2>/tmp/seedapply.err; then echo "APPLY-FAILED $(head -2 /tmp/seedapply.err)"; exit 3; fi
 cd /verif
-OUT=$(./check "$ID" "$TIER" 2>&1); CODE=$?
+OUT=$(PTV_NO_EVIDENCE=1 ./check "$ID" "$TIER" 2>&1); CODE=$?
 cd /repo && git checkout -- . 
 echo "$OUT" | grep -E "VIOLATION|violated oracle|INFRASTRUCTURE|^OK|error" | head -5
 echo "EXIT=$CODE patch=$PATCH check=$ID"
